@@ -262,8 +262,14 @@ def tags_of(case, real):
                     t.add("apply:raising-" + ("only" if len(kinds) == 1 else "first" if i == 0 else "last" if i == len(kinds) - 1 else "middle"))
             if any(k[0] == "m" for k in kinds):
                 t.add("apply:membership")
-            if any(k[0] == "v" for k in kinds):
-                t.add("apply:version-ok")
+            cur = s["enabled"]
+            for k in kinds:
+                if k[0] == "v":
+                    if k[1] < cur:
+                        t.add("apply:version-lower")       # D71: refused, counts as applied
+                    else:
+                        t.add("apply:version-ok")
+                        cur = k[1]
         if s["commit"] > s["applied"] and post["applied"] < min(post["commit"], s["log"][-1][1]):
             t.add("apply:stopped-early")
         if c["selfVer"] < s["enabled"]:
@@ -273,6 +279,8 @@ def tags_of(case, real):
                 t.add("callback:" + {0: "success", 3: "discarded", 5: "leader-changed"}.get(o[4], "other"))
                 if o[3] is not None and o[3][0] == "raised":
                     t.add("callback:exception-result")
+                if o[3] is not None and o[3][0] == "lowerver":
+                    t.add("callback:lower-version-result")
             if o[0] == "ready":
                 t.add("tick:ready")
         t.add("tick:send" if ["send"] in outs else "tick:no-send")
@@ -311,7 +319,8 @@ FLOOR = [
     "fallback:count-at-majority", "fallback:count-one-below", "fallback:lastResponse-eq-deadline", "fallback:step-down",
     "fallback:stay", "commit:advanced", "commit:unchanged", "commit:count-at-majority", "commit:count-one-below",
     "commit:old-term-entry-inside-range", "apply:progress", "apply:raising-first", "apply:raising-middle",
-    "apply:raising-last", "apply:raising-only", "apply:membership", "apply:version-ok", "apply:stopped-early",
+    "apply:raising-last", "apply:raising-only", "apply:membership", "apply:version-ok", "apply:version-lower",
+    "callback:lower-version-result", "apply:stopped-early",
     "apply:blocked-unsupported-enabled", "callback:success", "callback:discarded", "callback:leader-changed",
     "callback:exception-result", "tick:ready", "tick:send", "tick:no-send", "vote:counted-wins", "vote:counted-not-yet",
     "vote:ignored", "nni:accepted-success", "nni:accepted-reset", "nni:match-lt", "nni:match-eq", "nni:match-gt",
